@@ -135,7 +135,7 @@ def registerCases (g : Nat) : List Case → Nat → List Chan → List Chan
   | .send c v :: rest, i, chans =>
     let ch := chans.getD c Chan.nil
     registerCases g rest (i + 1)
-      (chans.set c { ch with sendQ := pushQ ch.isNil ch.sendQ ⟨g, some i, v⟩, hInit := ch.hInit ++ [v] })
+      (chans.set c { ch with sendQ := pushQ ch.isNil ch.sendQ ⟨g, some i, v⟩ })
 
 def selectCases (s : State) (g : Nat) : List Case :=
   match (getG s g).blocked with
@@ -224,40 +224,38 @@ def doSend (s : State) (g c v : Nat) : Res :=
   if ch.closed then (s, .panic .sendClosed)
   else match ch.recvQ with
     | e :: rq =>
-      let s1 := setC s c { ch with recvQ := rq, hInit := ch.hInit ++ [v], hCommit := ch.hCommit ++ [v], hRecv := ch.hRecv ++ [v] }
+      let s1 := setC s c { ch with recvQ := rq, hCommit := ch.hCommit ++ [v], hRecv := ch.hRecv ++ [v] }
       (fireRecv s1 e v true, .ok)
     | [] =>
       if ch.buf.length < ch.cap then
-        (setC s c { ch with buf := ch.buf ++ [v], hInit := ch.hInit ++ [v], hCommit := ch.hCommit ++ [v] }, .ok)
+        (setC s c { ch with buf := ch.buf ++ [v], hCommit := ch.hCommit ++ [v] }, .ok)
       else
-        let s1 := setC s c { ch with sendQ := pushQ ch.isNil ch.sendQ ⟨g, none, v⟩, hInit := ch.hInit ++ [v] }
+        let s1 := setC s c { ch with sendQ := pushQ ch.isNil ch.sendQ ⟨g, none, v⟩ }
         (block s1 g (.send c v), .blocked)
 
-/-- `$recv(chan)` goroutines.js:260-282 -/
+/-- second half of `$recv(chan)` goroutines.js:265-281: take from the buffer, or report closed, or block -/
+def recvTail (s1 : State) (g c : Nat) : Res :=
+  let ch1 := getC s1 c
+  match ch1.buf with
+  | v :: b => (setC s1 c { ch1 with buf := b, hRecv := ch1.hRecv ++ [v] }, .recvd v true)
+  | [] =>
+    if ch1.closed then
+      if ch1.isNil then (s1, .panic .nilElem) else (s1, .recvd 0 false)
+    else
+      let s2 := setC s1 c { ch1 with recvQ := pushQ ch1.isNil ch1.recvQ ⟨g, none, 0⟩ }
+      (block s2 g (.recv c), .blocked)
+
+/-- `$recv(chan)` goroutines.js:260-282; 261-264 pull a queued sender's value into the buffer first -/
 def doRecv (s : State) (g c : Nat) : Res :=
   let ch := getC s c
-  -- 261-264: pull a queued sender into the buffer
-  let r : Option State :=
-    match ch.sendQ with
-    | e :: sq =>
-      match fireSend (setC s c { ch with sendQ := sq }) c e false with
-      | none => none
-      | some s1 =>
-        let ch1 := getC s1 c
-        some (setC s1 c { ch1 with buf := ch1.buf ++ [e.val], hCommit := ch1.hCommit ++ [e.val] })
-    | [] => some s
-  match r with
-  | none => (setC s c { ch with sendQ := ch.sendQ.tail }, .panic .sendClosed)
-  | some s1 =>
-    let ch1 := getC s1 c
-    match ch1.buf with
-    | v :: b => (setC s1 c { ch1 with buf := b, hRecv := ch1.hRecv ++ [v] }, .recvd v true)
-    | [] =>
-      if ch1.closed then
-        if ch1.isNil then (s1, .panic .nilElem) else (s1, .recvd 0 false)
-      else
-        let s2 := setC s1 c { ch1 with recvQ := pushQ ch1.isNil ch1.recvQ ⟨g, none, 0⟩ }
-        (block s2 g (.recv c), .blocked)
+  match ch.sendQ with
+  | e :: sq =>
+    match fireSend (setC s c { ch with sendQ := sq }) c e false with
+    | none => (setC s c { ch with sendQ := sq }, .panic .sendClosed)
+    | some s1 =>
+      let ch1 := getC s1 c
+      recvTail (setC s1 c { ch1 with buf := ch1.buf ++ [e.val], hCommit := ch1.hCommit ++ [e.val] }) g c
+  | [] => recvTail s g c
 
 /-- first loop of `$close` goroutines.js:288-294 over the senders that were queued (plain entries do not touch
     the queues; a select entry throws, leaving the rest queued). Returns `(state, threw)`. -/
